@@ -192,7 +192,7 @@ func build(s *core.Shard, i int) *Case {
 	for _, n := range svcs.Keys {
 		used[0][n] = true
 	}
-	reuse := os.Getenv("VERIF_DEBUG_REUSE") != "" || i%7 == 3
+	reuse := i%7 == 3 // names reused across files in one case of seven (see FINDINGS.md #1, #2)
 	for j := k - 1; j >= 0; j-- {
 		switch shape {
 		case "same-file":
@@ -220,24 +220,27 @@ func build(s *core.Shard, i int) *Case {
 		mem[j] = member{name: name, file: cur}
 	}
 
-	// distinguishing input shapes
+	// distinguishing input shapes: the extender's name is also the name of a base
+	// in another file; and, on top of that, one of the services bearing that name
+	// (the extender itself included) carries a !reset / !override
 	c.Input = "plain"
+	shared := false
 	for j := 0; j < k; j++ {
 		if mem[j].name == lname {
-			if c.Input == "plain" {
-				c.Input = "base-named-like-extender"
+			shared = true
+		}
+	}
+	if shared {
+		c.Input = "base-named-like-extender"
+		for j := 0; j <= k; j++ {
+			if mem[j].name != lname || parts[j] == nil {
+				continue
 			}
-			tagged := false
-			if parts[j] != nil {
-				parts[j].Walk("", func(_ string, x *decomp.Val) {
-					if x.Tag != "" {
-						tagged = true
-					}
-				})
-			}
-			if tagged {
-				c.Input = "tagged-base-named-like-extender"
-			}
+			parts[j].Walk("", func(_ string, x *decomp.Val) {
+				if x.Tag != "" {
+					c.Input = "tagged-base-named-like-extender"
+				}
+			})
 		}
 	}
 
